@@ -128,7 +128,7 @@ def run(prog, ctx):
             continue
         if len(drivers) >= 2:
             # nested under loops over both inputs: tolerated only when the store is followed by an exit of the inner loop
-            ihb = [b2 for b2 in cfg.blocks.values() if b2.term is inner][0].id
+            ihb = cfg.loop_header(inner)
             sb = cfg.block_of(st)
             again = any(s2 == ihb for (bb, ii, s2) in cfg.edges() if bb in cfg.reachable(sb, avoid_blocks=[ihb]))
             if again:
@@ -182,7 +182,7 @@ def run(prog, ctx):
         # several sites charged to the same input: complementary conditions on the same element required
         def conds(h, st, inner):
             cfg = h.cfg
-            hb = [b2 for b2 in cfg.blocks.values() if b2.term is inner][0].id
+            hb = cfg.loop_header(inner)
             out = set()
             sb = cfg.block_of(st)
             for (bb, ii, s2) in cfg.edges():
@@ -226,39 +226,15 @@ def run(prog, ctx):
                 ctx.inconclusive("M4", inst, c.where, "block move inside the output array not of the recognised insertion form")
     ctx.floor("C03 output store sites", len(sites), 2)
     # ---- M5 guarded E-k ------------------------------------------------------------------------------------
+    from rules import common
     n5 = 0
     for h, call in helpers:
-        cfg = h.cfg
-        for x in h.walk():
-            if x.k != "ArraySubscriptExpr":
-                continue
-            idx = x.children[1].strip()
-            if idx.k == "BinaryOperator" and idx.j.get("op") == "-" and idx.children[1].const_value() and idx.children[0].strip().j.get("sg") is False:
-                n5 += 1
-                e = render(idx.children[0])
-                k = idx.children[1].const_value()
-
-                def guard(lit, b2, i2, e=e, k=k):
-                    if lit is None:
-                        return False
-                    if lit.kind == "truth" and lit.atom == e and lit.pol:
-                        return k == 1
-                    if lit.kind == "lt" and render(lit.rhs) == e and lit.pol and lit.lhs.const_value() is not None and lit.lhs.const_value() >= k - 1:
-                        return True
-                    return False
-                wp = cfg.feasible_reach(cfg.block_of(x), guard, lambda a: a == e or (" " + e + " ") in (" " + a + " "))
-                inst = "%s: %s" % (h.name, render(x))
-                if wp is None:
-                    ctx.ok("M5", inst, x.where, "every path establishes %s >= %d first" % (e, k))
-                else:
-                    ctx.fail("M5", inst, x.where,
-                             "`%s` is unsigned and the index %s is reachable with %s == 0 (e.g. an empty base file): element [-1] of the array is read" % (e, render(idx), e),
-                             key="underflow:%s:%s" % (h.name, render(x)), path=cfg.describe_path(wp)[-6:])
+        n5 += common.unsigned_minus_indices(ctx, "M5", h)
     ctx.counts["M5 indices E-k"] = n5
     # ---- M7 a key both sides define is not inserted a second time ----------------------------------------------
     for h, st, l, inner in charges.get("override", []):
         cfg = h.cfg
-        hb = [b2 for b2 in cfg.blocks.values() if b2.term is inner][0].id
+        hb = cfg.loop_header(inner)
         eq_edges = []
         for (bb, ii, s2) in cfg.edges():
             lit = cfg.edge_lit(bb, ii)
